@@ -12,7 +12,9 @@ RULE = ('decks with universe trees (depth 1–3, 1–3 cells per universe, one u
         'construction. Streams: monitor (Lean spec MCNP.locate vs owners + provenance comment + composition of the '
         'written file, 150 points per deck, under random option sets) and model (Layer-B correspondence). '
         'Non-trivial = at least one filled cell; distinct = distinct (deck text, options).')
-NOT_PROVED = ['which frame map the code picks when a cell has both a FILL transformation and a TRCL (decided by the fillmodel correspondence and the Lean locate monitor)']
+NOT_PROVED = ['which frame map the code picks when a cell has both a FILL transformation and a TRCL (decided by the '
+              'fillmodel correspondence and the Lean locate monitor); how a filler is moved once the map is chosen is '
+              'C04 transformed_tree / transformed_cell (pot_transform, cell_transform model)']
 ASSUMPTIONS = ['universe graphs are acyclic', 'filler cells have non-zero importance']
 
 
